@@ -13,6 +13,7 @@ EXPLANATION = (
     "drops a committed transaction under commit_epoch <(=) the MINIMUM active start epoch and never an active one; (R7) "
     "record_write inserts its entity into the write set of the transaction named by its argument while Active, commit "
     "validates the committing transaction's own sets, TxInfo::new stores its arguments. (R8) commit only reads the write sets, so a refused transaction keeps its set; (R9) one exclusive guard on the transaction table spans every refusal decision and the state = Committed write. "
+    "(R10) a finished transaction never changes state again (gc drops Aborted records at once); R7 also: every Ok return of record_write has registered the entity. "
     "It does not enumerate histories.")
 ASSUMPTIONS = [
     "operands are identified by provenance (TxInfo.start_epoch, TransactionManager.committed_epochs, TxInfo.write_set), not by name",
